@@ -46,9 +46,9 @@ RUNS = [
     # the usize::MAX boundary of the permit counter: initial permits usize::MAX-3, the budget lets
     # releases land exactly on usize::MAX (never above: overflow is excluded by the contract)
     dict(name="sem-max-unfair", prim="semaphore", cfg="2 0 18446744073709551612 3 2 18446744073709551615 1", flavours=["local", "sync", "shared"],
-         quick=dict(explore=40000), thorough=dict(explore=400000), corpus=False),
+         quick=dict(explore=40000), thorough=dict(explore=150000), corpus=False),
     dict(name="sem-max-fair", prim="semaphore", cfg="2 1 18446744073709551612 3 2 18446744073709551615 1", flavours=["local", "sync", "shared"],
-         quick=dict(explore=40000), thorough=dict(explore=400000), corpus=False),
+         quick=dict(explore=40000), thorough=dict(explore=150000), corpus=False),
     dict(name="sem-k3-unfair", prim="semaphore", cfg="3 0 0 2 1 2 1", flavours=["local", "shared"],
          quick=dict(explore=0), thorough=dict(explore=3000000), corpus=False),
     dict(name="sem-k3-fair", prim="semaphore", cfg="3 1 0 2 1 2 1", flavours=["local", "shared"],
@@ -72,7 +72,7 @@ RUNS += [
     dict(name="mpmc-shared-c1", prim="mpmc", cfg="1 1 1 1 2", flavours=["shared", "shared-growing"],
          quick=dict(explore=1000000, random=(300, 80)), thorough=dict(explore=1000000, random=(5000, 300)), random_cfg="4 4 2 1 3"),
     dict(name="mpmc-shared-c1-h3", prim="mpmc", cfg="2 1 1 1 3", flavours=["shared"],
-         quick=dict(explore=0), thorough=dict(explore=4000000), corpus=False),
+         quick=dict(explore=40000, random=(300, 40)), thorough=dict(explore=4000000), corpus=False),
     # oneshot: cfg = slots, broadcast, counted receivers (1 = what C11 requires), shared, max receiver handles
     dict(name="oneshot-local", prim="oneshot", cfg="3 0 1 0 0", flavours=["local", "sync"],
          quick=dict(explore=1000000, random=(200, 40)), thorough=dict(explore=1000000, random=(3000, 100)), random_cfg="8 0 1 0 0"),
@@ -241,7 +241,7 @@ PROPS = {
     "C10": dict(
         level="proof", extra=["atomic_audit", "threads"], coq_files=["Properties/C10.v"],
         theorems={"Properties/C10.v": ["C10_recv_woken_trace", "C10_recv_woken", "C10_sender_woken", "C10_after_close_all_woken", "C10_progress", "C10_sender_progress"]},
-        runs=MPMC_RUNS, keys=["r", "w", "p"], monitor=dict(id=10, runs=["mpmc-c0", "mpmc-c1", "mpmc-shared-c0", "mpmc-c2-22"]),
+        runs=MPMC_RUNS, keys=["r", "w", "p"], monitor=dict(id=10, runs=["mpmc-c0", "mpmc-c1", "mpmc-shared-c0", "mpmc-c2-22", "mpmc-shared-c1-h3"]),
         assumptions=[SCHED_NOTE],
         level_text="Theorem over all histories: after every call, value available and receivers pending => some pending receiver woken since its last poll through that poll's waker (monitor on the trace + state-level version); accepted sender woken; all pending futures woken after close; progress lemmas (unqueued receiver polled while a value is available gets the oldest value; completed sender polls Ok). Correspondence on results and ordered wake lists.",
         level_note="'Never deadlock' is the safety invariant + one-step progress, not a temporal theorem. " + SCHED_NOTE,
